@@ -36,6 +36,27 @@ MUTANTS = [
     ("unfix-F17-epoch-hint-by-hash", ["C17"], ["unfix_F17_epoch_hint_by_hash.diff"], []),
     ("unfix-F18-welcome-id-late", ["C16", "C06"], ["unfix_F18_welcome_id_late.diff"], []),
     ("unfix-F21-welcome-marker-first", ["C12"], ["unfix_F21_welcome_marker_first.diff"], []),
+    ("c12-second-unbracketed-write-in-save-message", ["C12"], [], [(SQL + "messages.rs", """                    message.state.as_str(),
+                ],
+            )
+            .map_err(into_message_err)?;
+
+            Ok(())""", """                    message.state.as_str(),
+                ],
+            )
+            .map_err(into_message_err)?;
+
+            conn.execute(
+                "UPDATE groups SET last_message_processed_at = ? WHERE mls_group_id = ? AND (last_message_processed_at IS NULL OR last_message_processed_at < ?)",
+                params![
+                    message.processed_at.as_secs(),
+                    message.mls_group_id.as_slice(),
+                    message.processed_at.as_secs(),
+                ],
+            )
+            .map_err(into_message_err)?;
+
+            Ok(())""")]),
     ("c12-commit-marker-before-sync", ["C12"], [], [(CORE + "messages/commit.rs", """        // Sync the stored group metadata with the updated MLS group state
         self.sync_group_metadata_from_mls(&group_id)?;
 
